@@ -50,10 +50,22 @@ def attr_names(attrpath):
 def set_node(root):
     """descend from the source node to the attribute set an edit targets: through function heads, let, with,
     assert, parentheses and a call's argument"""
-    n = root
+    n = root; lets = []; hops = 0
     while True:
         t = n.type
         if t in ('attrset_expression', 'rec_attrset_expression'): return n
+        if t == 'variable_expression' and hops < 8:
+            # a name on the spine (`let cfg = { … }; in cfg`, `… in mk cfg`): continue at the let binding that defines it
+            nm = n.text.decode(); hit = None
+            for L in reversed(lets):
+                for c in L.children:
+                    if c.type == 'binding_set':
+                        for b in c.children:
+                            if b.type == 'binding' and b.child_by_field_name('attrpath').text.decode() == nm: hit = b.child_by_field_name('expression')
+                if hit is not None: break
+            if hit is None: return None
+            n = hit; hops += 1; continue
+        if t == 'let_expression': lets.append(n)
         if t == 'source_code':
             ks = [c for c in n.children if c.type != 'comment']
             if len(ks) != 1: return None
